@@ -4,6 +4,7 @@ import TFV.Properties.Src.Greedy
 import TFV.Properties.Src.ShadeBook
 import TFV.Properties.Src.JdeParams
 import TFV.Properties.Src.MemoryUpdate
+import TFV.Properties.Src.ShagaParams
 #print axioms TFV.Adapt.C15_randc01_range
 #print axioms TFV.Adapt.C15_randc01_progress
 #print axioms TFV.Adapt.C15_randn01_range
@@ -35,3 +36,4 @@ import TFV.Properties.Src.MemoryUpdate
 #print axioms TFV.Properties.Src.MemoryUpdate.C15_src_shaga_randn
 #print axioms TFV.Properties.Src.MemoryUpdate.C15_src_shaga_randn_range
 #print axioms TFV.Properties.Src.MemoryUpdate.C15_src_shaga_randc
+#print axioms TFV.SrcTie.C15_src_shaga_generate_MR_CR
